@@ -402,6 +402,7 @@ def gen_pack_case(rng, idx, quick, flavour="gensquashfs"):
     case = {"id": idx, "B": B, "paths": paths, "contents": contents, "comp": rng.choice(COMPS), "tool": flavour,
             "notail": rng.random() < 0.35, "export": rng.random() < 0.4, "devblk": rng.choice([4096, 4096, 1024, 8192]),
             "jobs": 1 if quick or rng.random() < 0.8 else rng.choice([2, 4])}
+    case["backlog"] = None if quick or rng.random() < 0.7 else rng.choice([1, 3, 4, 7])
     if flavour in ("gensquashfs", "packdir") and rng.random() < 0.85:
         case["sortfile"] = gen_sortfile(rng, paths, valid_only=True)
     else:
@@ -441,6 +442,8 @@ def build_image(env, case, d):
     d.mkdir(parents=True, exist_ok=True)
     img = d / "out.sqfs"
     opts = ["-b", case["B"], "-B", case["devblk"], "-c", case["comp"], "-j", case["jobs"], "-q", "-f"]
+    if case.get("backlog"):
+        opts += ["-Q", case["backlog"]]
     if case["notail"]:
         opts.append("-T")
     if case["export"]:
@@ -624,7 +627,7 @@ def effect_failures(case, order, real):
             if ino["frag"] is not None:
                 i, o = ino["frag"]
                 for _, fr in seen:
-                    if fr and fr[0] == i and not (fr[1] + fr[2] <= o or o + size % B <= fr[1]):
+                    if fr and fr[0] == i and not (fr[1] + fr[2] <= o):      # the earlier slot ends before this one begins
                         bad.append(("dont_dedup_effect_fragment", p))
                         break
         if case["notail"] and size > B and ino["frag"] is not None:
@@ -645,8 +648,18 @@ def run_pack_case(env, case, scratch):
         if rc != 0:
             res["problems"].append(("tool-failed", "%s exited %s: %s" % (case["tool"], rc, str(err)[-400:])))
             return res
-        real = decode_image(env, case, img)
-        case["base"] = real["base"]
+        try:
+            real = decode_image(env, case, img)
+            case["base"] = real["base"]
+        except (ValueError, struct.error, IndexError, KeyError) as e:
+            # the image cannot be walked: is that what the model of the pinned fragment rule (D24: stray block word in
+            # an inode, fragment entry 0/0) predicts for this input?
+            real = None
+            res["problems"].append(("undecodable", "image cannot be decoded: %r" % (e,)))
+            try:
+                case["base"] = sqfsraw.Image(img.read_bytes()).data_base
+            except Exception:
+                case["base"] = 96
         # --- packing order and flags -----------------------------------------------------------------------
         if case["tool"] in ("gensquashfs", "packdir"):
             line = env.run_harness(["sort %d %s %s" % (len(case["paths"]), " ".join(hx(p) for p in case["paths"]),
@@ -677,6 +690,9 @@ def run_pack_case(env, case, scratch):
             for i in range(0, len(c), B):
                 pay.add(c[i:i + B])
         compress_table(env, case, pay, table)
+        if real is None:
+            res["d24"] = any(model_pack(env, case, eorders[m], table, "cur")["d24"] for m in ("fix", "cur"))
+            return res
         variants, matched = {}, None
         for key in (("fix", "fix"), ("cur", "fix"), ("fix", "cur"), ("cur", "cur")):
             smode, pmode = key
@@ -709,8 +725,12 @@ def run_pack_case(env, case, scratch):
         res["d27"] = any(mo.get("d27") for mo in variants.values())
         res["quoted"] = case["sortfile"] is not None and b'"' in case["sortfile"]
         # --- specification's read-back on the real layout ------------------------------------------------------
-        if matched is not None:
-            res["readback_bad"] = monitor_read(env, case, real, table)
+        rb, lean_eff = monitor_read(env, case, real, table, used)
+        res["readback_bad"] = rb if matched is not None else []
+        have = {c for c, _ in bad}
+        res["effects"] = bad + [(c, b"(Lean monitor)") for c in lean_eff if c not in have]
+        res["lean_monitor_only"] = [c for c in lean_eff if c not in have]
+        res["python_monitor_only"] = sorted(have - set(lean_eff) - {"no_tail_packing_large", "no_tail_packing_small"})
         # --- order on disk, export table, padding ---------------------------------------------------------------
         res["order_bad"] = order_failures(case, used, real, spec if matched == ("fix", "fix") else None)
         res["export_bad"] = export_failures(env, case, real)
@@ -744,8 +764,9 @@ def compare(case, order, mo, real):
     return (not diffs), diffs
 
 
-def monitor_read(env, case, real, table):
-    """`readFile` of the specification evaluated on the implementation's layout must give back the input"""
+def monitor_read(env, case, real, table, order):
+    """`readFile` of the specification evaluated on the implementation's layout must give back the input; and the
+    directive clauses as defined in Lean (Sqfs/Spec/Directives.lean) evaluated on the same layout"""
     lines = ["pack-begin %d %d" % (case["B"], real["base"])]
     for k, v in table.items():
         if v is not None:
@@ -785,8 +806,24 @@ def monitor_read(env, case, real, table):
         lines.append("mon-read %d %d %s %d %s" % (ino["size"], ino["start"], "-" if ino["frag"] is None else ino["frag"][0],
                                                   0 if ino["frag"] is None else ino["frag"][1],
                                                   ",".join(str(w) for w in ino["words"]) or "-"))
+    eff = []
+    for p, fl in order:
+        ino = real["files"].get(p)
+        if ino is None:
+            eff = None
+            break
+        eff.append("%d %d %d %s %d %d %s" % (fl, ino["size"], ino["start"], "-" if ino["frag"] is None else ino["frag"][0],
+                                             0 if ino["frag"] is None else ino["frag"][1], ino["sparse"],
+                                             ",".join(str(w) for w in ino["words"]) or "-"))
+    if eff is not None:
+        lines.append("mon-effects " + " ".join(eff))
     out = env.run_model(lines)[nset:]
-    return [p for (p, c), o in zip(keys, out) if unhx(o) != c]
+    lean_eff = []
+    if eff is not None:
+        last = out.pop()
+        if last != "ok":
+            lean_eff = last.split()
+    return [p for (p, c), o in zip(keys, out) if unhx(o) != c], lean_eff
 
 
 def order_failures(case, order, real, spec):
@@ -874,7 +911,7 @@ def judge(case, res, summary):
             summary["generator_rejects"] += 1
             continue
         # an undecodable image / failing tool can be the consequence of D24 (stray block word in the inode table)
-        if res.get("d24") or (kind in ("undecodable", "tool-failed", "decode") and case_may_hit_d24(case)):
+        if res.get("d24") and kind in ("undecodable", "decode", "padding"):
             out.append((KEY_D24, "nosparse all-zero tail alone in its fragment block: %s" % what, True))
             summary["d24"] += 1
             continue
@@ -937,11 +974,6 @@ def classify_and_report(ctx, case, res, summary):
             report_once(ctx, key, what, case_replay(case))
         else:
             ctx.violation(key, what, dict(case_replay(case), diffs=res.get("spec_diffs")), found_input=found)
-
-
-def case_may_hit_d24(case):
-    sf = case.get("sortfile") or b""
-    return b"nosparse" in sf and any(c and len(c) % case["B"] and not any(c[len(c) - len(c) % case["B"]:]) for c in case["contents"])
 
 
 def consts_ok(ctx):
@@ -1018,6 +1050,9 @@ def run(ctx):
             hist["B"][str(c["B"])] = hist["B"].get(str(c["B"]), 0) + 1
             hist["notail"] += 1 if c["notail"] else 0
             hist["export"] += 1 if c["export"] else 0
+            if res.get("lean_monitor_only") or res.get("python_monitor_only"):
+                hist["monitors_disagree"] = hist.get("monitors_disagree", 0) + 1
+                ctx.log("monitors disagree on case %s: lean-only %s python-only %s" % (c["id"], res.get("lean_monitor_only"), res.get("python_monitor_only")))
             hist["tar2sqfs"] += 1 if c["tool"] == "tar2sqfs" else 0
             hist["packdir"] = hist.get("packdir", 0) + (1 if c["tool"] == "packdir" else 0)
             hist["with_sortfile"] += 1 if c.get("sortfile") else 0
